@@ -3,8 +3,9 @@
 `fixed:` line to known_findings.json and register the reverse patch as selftest mutant reintroduce_F<n>."""
 import json, subprocess, sys
 F, prop, rule, mprops, what = sys.argv[1:6]
-h = subprocess.run(['git', '-C', '/repo', 'log', '--format=%h', '-1'], capture_output=True, text=True).stdout.strip()
-open('/verif/selftest/mutants/reintroduce_%s.diff' % F, 'w').write(subprocess.run(['git', '-C', '/repo', 'diff', 'HEAD~1', 'HEAD', '-R'], capture_output=True, text=True).stdout)
+c = sys.argv[6] if len(sys.argv) > 6 else 'HEAD'
+h = subprocess.run(['git', '-C', '/repo', 'log', '--format=%h', '-1', c], capture_output=True, text=True).stdout.strip()
+open('/verif/selftest/mutants/reintroduce_%s.diff' % F, 'w').write(subprocess.run(['git', '-C', '/repo', 'diff', c + '~1', c, '-R'], capture_output=True, text=True).stdout)
 p = '/verif/known_findings.json'
 d = json.load(open(p))
 d['fixed'] = [x for x in d['fixed'] if (" %s " % F) not in x]
